@@ -74,7 +74,7 @@ func extrasBody(r *Run) {
 		return
 	}
 	w := r.Own(NewFSWorld(FSOpts{N: n, Label: "extras", With: []string{"netmap", "balance", "neofsid", "container", "reputation", "audit", "proxy"}}))
-	alph := w.Deploy("alphabet0", CompileContract("alphabet"), []any{false, w.C["netmap"].Hash, w.C["proxy"].Hash, "az", int64(0), int64(n)})
+	alph := w.Deploy("alphabet0", CompileContract("alphabet"), []any{false, w.C["netmap"].Hash, w.C["proxy"].Hash, "\u2c00\u2c38\u2c4f", int64(0), int64(n)})
 	w.blocksFed = 0
 	A := []Signer{w.Alphabet}
 	epoch := int64(0)
